@@ -132,7 +132,7 @@ C12_OperandsUntouched(c) == c.xd[1] = c.xd[2] /\ c.yd[1] = c.yd[2]
 
 \* C06: self-operations, empty operands, disjoint boxes
 C06_Self(c) == c.x = c.y =>
-                 IF c.op \in {"int", "union"} THEN RegionEq(c.mp, val[c.x]) ELSE c.mp = <<>>
+                 IF c.op \in {"int", "union"} THEN RegionEq(c.mp, val[c.x]) ELSE IsEmptyMp(c.mp)
 C06_Empty(c) == (IsEmptyMp(val[c.x]) \/ IsEmptyMp(val[c.y])) =>
                  CASE c.op \in {"union", "xor"} -> RegionEq3(c.mp, val[c.x], val[c.y])
                    [] c.op = "diff" -> RegionEq(c.mp, val[c.x])
